@@ -240,12 +240,12 @@ fn extension_additions(input: Input<'_>) -> ParserResult<'_, ()> {
                         pair(
                             terminated(
                                 alt((value(None, tag(MIN)), map(asn1_value, Some))),
-                                skip_ws_and_comments(opt(char(GREATER_THAN))),
+                                skip_ws_and_comments(opt(char(LESS_THAN))),
                             ),
                             preceded(
                                 range_seperator,
                                 preceded(
-                                    opt(char(LESS_THAN)),
+                                    skip_ws_and_comments(opt(char(LESS_THAN))),
                                     skip_ws_and_comments(alt((
                                         value(None, tag(MAX)),
                                         map(asn1_value, Some),
